@@ -1,0 +1,50 @@
+//go:build verif
+
+package doublylinkedlist
+
+// VerifChain walks the cells forward from first via next and backward from last via prev (at
+// most limit cells each) and reports whether first, last and size are consistent: first.prev ==
+// nil, last.next == nil, size == chain length in both directions, the forward walk ends in last,
+// the backward walk ends in first, every cell's next.prev / prev.next points back to it, and the
+// list is empty iff first == nil && last == nil.
+func (list *List[T]) VerifChain(limit int) (forward []T, backward []T, size int, consistent bool) {
+	forward = []T{}
+	backward = []T{}
+	consistent = true
+	var lastSeen *element[T]
+	n := 0
+	for e := list.first; e != nil && n < limit; e = e.next {
+		forward = append(forward, e.value)
+		if e.next != nil && e.next.prev != e {
+			consistent = false
+		}
+		lastSeen = e
+		n++
+	}
+	if n != list.size || lastSeen != list.last {
+		consistent = false
+	}
+	var firstSeen *element[T]
+	m := 0
+	for e := list.last; e != nil && m < limit; e = e.prev {
+		backward = append(backward, e.value)
+		if e.prev != nil && e.prev.next != e {
+			consistent = false
+		}
+		firstSeen = e
+		m++
+	}
+	if m != list.size || firstSeen != list.first {
+		consistent = false
+	}
+	if list.first != nil && list.first.prev != nil {
+		consistent = false
+	}
+	if list.last != nil && list.last.next != nil {
+		consistent = false
+	}
+	if (list.size == 0) != (list.first == nil && list.last == nil) {
+		consistent = false
+	}
+	return forward, backward, list.size, consistent
+}
